@@ -26,6 +26,16 @@ func (fx *FuncExec) execGo(st *State, g *ssa.Go) {
 	for _, a := range c.Args {
 		fx.val(st, a)
 	}
+	// the spawn itself is observable in contracts: called("go:<callee>")
+	name, _, _, _ := fx.calleeName(c, st)
+	short := name
+	if i := strings.LastIndex(short, ":"); i >= 0 && !strings.HasPrefix(short, "dynamic") {
+		short = short[i+1:]
+	}
+	if st.called == nil {
+		st.called = map[string]string{}
+	}
+	st.called["go:"+short] = "true"
 }
 
 func (fx *FuncExec) calleeName(c *ssa.CallCommon, st *State) (name string, fn *ssa.Function, binds []Val, recv *Val) {
@@ -139,6 +149,10 @@ func (fx *FuncExec) execCallInner(st *State, instr ssa.Instruction, c *ssa.CallC
 		st.called = map[string]string{}
 	}
 	st.called[short] = "true"
+	if st.calledIter == nil {
+		st.calledIter = map[string]string{}
+	}
+	st.calledIter[short] = "true"
 	if fx.callNames == nil {
 		fx.callNames = map[ssa.Instruction]string{}
 	}
@@ -152,7 +166,7 @@ func (fx *FuncExec) execCallInner(st *State, instr ssa.Instruction, c *ssa.CallC
 	var siteFrame *CallSiteSpec
 	if fx.fc != nil {
 		for _, cs := range fx.fc.Calls {
-			if (cs.Callee == short || (cs.Ordinal == -1 && strings.HasSuffix(cs.Callee, "*") && strings.HasPrefix(short, strings.TrimSuffix(cs.Callee, "*")))) && (cs.Ordinal == ord || cs.Ordinal == -1) {
+			if (cs.Callee == short || (cs.Ordinal == -1 && strings.HasSuffix(cs.Callee, "*") && strings.HasPrefix(short, strings.TrimSuffix(cs.Callee, "*")))) && (cs.Ordinal == ord || cs.Ordinal == -1 || (cs.Ordinal == -2 && fx.lineOf(instr.Pos(), cs.LineHas))) {
 				if cs.HasFrame {
 					siteFrame = cs
 				}
@@ -263,6 +277,15 @@ func (fx *FuncExec) execCallInner(st *State, instr ssa.Instruction, c *ssa.CallC
 	}
 	fx.refFacts(st, res)
 	return res
+}
+
+// lineOf: does the source line of pos contain text? (call sites addressed by their source text)
+func (fx *FuncExec) lineOf(pos token.Pos, text string) bool {
+	if pos == token.NoPos {
+		return false
+	}
+	p := fx.V.prog.Fset.Position(pos)
+	return strings.Contains(fx.V.sourceLine(p.Filename, p.Line), text)
 }
 
 func frameText(cs *CallSiteSpec) string {
